@@ -70,10 +70,12 @@ type zzStore struct {
 	deletes      int
 	renewFailAt  int // C05: the k-th CasByVersion is lost (0 = never)
 	noExpiry     bool
+	noGuard      bool
+	progress     chan struct{} // one token per applied renewal
 }
 
 func zzNewStore(maxFaults int) *zzStore {
-	return &zzStore{changed: make(chan struct{}), maxFaults: maxFaults, lastCreateBy: map[int]string{}}
+	return &zzStore{changed: make(chan struct{}), maxFaults: maxFaults, lastCreateBy: map[int]string{}, progress: make(chan struct{}, 64)}
 }
 
 // fault: 0 none, 1 request lost, 2 reply lost
@@ -104,7 +106,7 @@ func (s *zzStore) expire() {
 		return // time abstracted away: unguarded records are removed by a "lapse" thread (see unguard)
 	}
 	now := time.Now()
-	if s.guard == s.ver && !s.ownerDead {
+	if s.guard == s.ver && !s.ownerDead && !s.noGuard {
 		vAssume(!s.exp.Before(now))
 		return
 	}
@@ -194,6 +196,10 @@ func (s *zzStore) CasByVersion(ctx context.Context, r kvs.Record) (kvs.Record, e
 		s.guard = s.ver
 	}
 	s.casApplied++
+	select {
+	case s.progress <- struct{}{}:
+	default:
+	}
 	s.bump()
 	if f == 2 {
 		return kvs.Record{}, zzTransient
@@ -255,7 +261,7 @@ func (s *zzStore) WaitForVersionChange(ctx context.Context, key, ver string) err
 		}
 		ch := s.changed
 		var expC <-chan time.Time
-		if vParam("CLOCK") == 1 && (s.guard != s.ver || s.ownerDead) {
+		if vParam("CLOCK") == 1 && (s.guard != s.ver || s.ownerDead || s.noGuard) {
 			// an unguarded record lapses by itself: wake up when it does
 			expC = time.NewTimer(s.exp.Sub(time.Now()) + 1).C
 		}
@@ -315,11 +321,15 @@ func zzTimeoutCall(f func(), d time.Duration) timeout.Future {
 			<-tmC // with the clock abstracted away the timer may fire at any point the scheduler chooses
 		}
 		// hypothesis (DESIGN, observation 1): no goroutine is stalled for >= TTL/2 between timeout.Call and
-		// future.Store - a locker in the held state has stored its first future by the time a renewal fires
-		if zzW != nil {
+		// future.Store / future.CompareAndSwap - when a timer fires, its future has been stored (or cancelled)
+		if zzW != nil && fu.armed {
+			stored := false
 			for _, l := range zzW.lockers {
-				vAssume(l.lckCntr != 1 || l.future.Load() != nil)
+				if v := l.future.Load(); v != nil && v.(*zzFuture) == fu {
+					stored = true
+				}
 			}
+			vAssume(stored)
 		}
 		if fu.armed && !zzTimersDead {
 			fu.armed = false
@@ -352,9 +362,14 @@ func zzNewWorld(nProv, nLock, maxFaults int) *zzWorld {
 		p := New("/locks/")
 		p.Storage = w.st
 		if vParam("CLOCK") == 1 {
-			ttl := vInt64("leaseTTL")
-			vAssume(ttl >= 2 && ttl <= 1<<40)
-			p.leaseTTL = time.Duration(ttl)
+			if vParam("TTLSET") == 1 {
+				// a few concrete lease periods (even, odd, large): all clock arithmetic folds to constants
+				p.leaseTTL = time.Duration([]int64{1000, 1001, 1 << 30}[vChoose("leaseTTL", 3)])
+			} else {
+				ttl := vInt64("leaseTTL")
+				vAssume(ttl >= int64(vParam("TTLMIN")) && ttl <= 1<<40)
+				p.leaseTTL = time.Duration(ttl)
+			}
 		}
 		w.provs = append(w.provs, p)
 	}
@@ -452,4 +467,258 @@ func zzC01Mutex() {
 		<-fin[t]
 	}
 	vReach("all-done")
+}
+
+// ---------------------------------------------------------------------------------------------
+// C04: hand-off, cancellation and shutdown leave no residue (no faults).
+
+func (w *zzWorld) quiescent(nLock int) {
+	vAssert(w.holders == 0, "a caller still counts as holder at quiescence")
+	w.st.mu.Lock()
+	vAssert(!w.st.present, "the lock record is still in the storage although every holder has unlocked")
+	w.st.mu.Unlock()
+	for i := 0; i < nLock; i++ {
+		l := w.lockers[i]
+		vAssert(l.lckCntr == 0, "a Locker is left in the held state")
+		vAssert(len(l.lockCh) == 1, "a Locker's local token was not put back")
+	}
+	if !w.shutdownDone {
+		// the same and other lockers can acquire again
+		l := w.lockers[vChoose("again", nLock)]
+		w.nextCtx++
+		vAssert(l.TryLock(zzNewCtx(w.nextCtx)), "a fresh TryLock fails although nobody holds the lock")
+		l.Unlock()
+	}
+}
+
+// every caller gets the lock in turn: N threads, each Lock()s and Unlock()s ROUNDS times; no wake-up may be lost
+func zzC04Handoff() {
+	N, nLock := vParam("N"), vParam("LOCKERS")
+	w := zzNewWorld(vParam("PROVS"), nLock, 0)
+	w.acq = make([]int, N)
+	rounds := vParam("ROUNDS")
+	fin := make([]chan struct{}, N)
+	for t := 0; t < N; t++ {
+		t := t
+		fin[t] = make(chan struct{})
+		l := w.lockers[t%nLock]
+		vSpawn("locker", func() {
+			for r := 0; r < rounds; r++ {
+				if vChoose("how", 2) == 0 {
+					l.Lock()
+				} else {
+					w.nextCtx++
+					vAssert(l.LockWithCtx(zzNewCtx(w.nextCtx)) == nil, "LockWithCtx with a live context failed")
+				}
+				w.acquired(t)
+				vYield()
+				w.release(l)
+			}
+			close(fin[t])
+		})
+	}
+	for t := 0; t < N; t++ {
+		<-fin[t] // a caller that never gets the lock shows as a deadlock
+	}
+	vReach("all-done")
+	for t := 0; t < N; t++ {
+		vAssert(w.acq[t] == rounds, "a caller did not get the lock")
+	}
+	w.quiescent(nLock)
+}
+
+// cancellation and failing TryLock leave nothing behind; a holder is present part of the time
+func zzC04Cancel() {
+	nLock := vParam("LOCKERS")
+	w := zzNewWorld(1, nLock, 0)
+	w.acq = make([]int, 2)
+	holderDone := make(chan struct{})
+	hl := w.lockers[0]
+	// thread 0: holds the lock for a while
+	vSpawn("holder", func() {
+		hl.Lock()
+		w.acquired(0)
+		vYield()
+		w.release(hl)
+		close(holderDone)
+	})
+	// thread 1: an attempt that is cancelled (before / at any point) or a TryLock
+	cl := w.lockers[(nLock-1)%nLock] // the same Locker when LOCKERS == 1
+	w.nextCtx++
+	ctx := zzNewCtx(w.nextCtx)
+	got := false
+	switch vChoose("attempt", 3) {
+	case 0:
+		ctx.cancel()
+		err := cl.LockWithCtx(ctx)
+		vAssert(err == context.Canceled, "a context that is already done must yield the context's error")
+	case 1:
+		vSpawn("canceller", func() { ctx.cancel() })
+		err := cl.LockWithCtx(ctx)
+		vAssert(err == nil || err == context.Canceled, "LockWithCtx returned something else than nil or the context's error")
+		got = err == nil
+	case 2:
+		got = cl.TryLock(ctx)
+	}
+	if got {
+		w.acquired(1)
+		vYield()
+		w.release(cl)
+	} else {
+		// nothing was stored by this attempt and nothing is held because of it
+		_, stored := w.st.lastCreateBy[ctx.id]
+		vAssert(!stored, "a failed attempt left a record in the storage")
+	}
+	vReach("attempt-done")
+	<-holderDone
+	w.quiescent(nLock)
+}
+
+// after Shutdown returned no attempt ever acquires
+func zzC04Shutdown() {
+	nLock := vParam("LOCKERS")
+	w := zzNewWorld(1, nLock, 0)
+	w.acq = make([]int, 2)
+	fin := make(chan struct{})
+	l0 := w.lockers[0]
+	vSpawn("early", func() {
+		// an attempt that may start before the shutdown: it may or may not acquire
+		w.nextCtx++
+		if l0.LockWithCtx(zzNewCtx(w.nextCtx)) == nil {
+			w.holders++
+			vAssert(w.holders == 1, "two callers hold the lock at the same time")
+			vYield()
+			w.release(l0)
+		}
+		close(fin)
+	})
+	vYield()
+	w.provs[0].Shutdown()
+	w.shutdownDone = true
+	l1 := w.lockers[(nLock-1)%nLock]
+	w.nextCtx++
+	ctx := zzNewCtx(w.nextCtx)
+	if vChoose("late", 2) == 0 {
+		vAssert(l1.LockWithCtx(ctx) != nil, "LockWithCtx acquired after Shutdown returned")
+	} else {
+		vAssert(!l1.TryLock(ctx), "TryLock acquired after Shutdown returned")
+	}
+	_, stored := w.st.lastCreateBy[ctx.id]
+	vAssert(!stored, "an attempt after Shutdown stored a record")
+	vReach("late-done")
+	<-fin
+	vAssert(w.holders == 0, "holder left")
+}
+
+// ---------------------------------------------------------------------------------------------
+// C05: the lease is kept while held and lapses after holder death.
+// Prompt environment (engine option prompt_clock): time passes only when a timer fires, and the earliest
+// armed timer fires exactly when due - "the storage answers and renewals fire on time".
+
+// part 1: while the holder holds (for R renewal periods, the k-th renewal call failing transiently) a contender
+// that is parked in LockWithCtx never acquires; after Unlock it does.
+func zzC05Kept() {
+	w := zzNewWorld(1, 2, 0)
+	w.acq = make([]int, 2)
+	w.st.noGuard = true // expiry is real here: nothing is assumed about renewals
+	R := vParam("R")
+	k := vChoose("failAt", R+1) // 0 = no failing renewal
+	w.st.renewFailAt = k
+	hl, cl := w.lockers[0], w.lockers[1]
+	hl.Lock()
+	w.acquired(0)
+	contDone := make(chan struct{})
+	vSpawn("contender", func() {
+		w.nextCtx++
+		err := cl.LockWithCtx(zzNewCtx(w.nextCtx))
+		vAssert(err == nil, "contender's LockWithCtx failed")
+		known := vKnownIf("C05/renewal-stops-after-transient-error", k != 0)
+		w.acquired(1)
+		if known {
+			vKnownEnd()
+		}
+		close(contDone)
+	})
+	// the holder keeps the lock until R renewals have been applied (a stalled chain would never get there)
+	for w.st.casApplied < R {
+		before := w.st.casApplied
+		<-w.st.progress
+		_ = before
+	}
+	vReach("held-long")
+	w.release(hl)
+	<-contDone
+	vReach("handed-over")
+}
+
+// part 2: the holder dies (its timers are dropped, it never unlocks) at any phase: the waiting contender
+// acquires, not before the record's expiration and promptly after it
+func zzC05Death() {
+	w := zzNewWorld(1, 2, 0)
+	w.acq = make([]int, 2)
+	w.st.noGuard = true
+	hl, cl := w.lockers[0], w.lockers[1]
+	hl.Lock()
+	w.acquired(0)
+	var acqAt time.Time
+	contDone := make(chan struct{})
+	vSpawn("contender", func() {
+		w.nextCtx++
+		err := cl.LockWithCtx(zzNewCtx(w.nextCtx))
+		vAssert(err == nil, "contender's LockWithCtx failed")
+		acqAt = time.Now()
+		close(contDone)
+	})
+	// death after 0..R renewals
+	R := vParam("R")
+	dieAfter := vChoose("dieAfter", R+1)
+	for w.st.casApplied < dieAfter {
+		<-w.st.progress
+	}
+	zzTimersDead = true
+	w.holders-- // a dead holder no longer counts
+	w.st.mu.Lock()
+	lastExp := w.st.exp
+	w.st.mu.Unlock()
+	<-contDone // the record must disappear and the contender must get the lock (else: deadlock)
+	vReach("took-over")
+	vAssert(!acqAt.Before(lastExp), "the contender acquired before the dead holder's lease ran out")
+	vAssert(acqAt.Sub(lastExp) <= 64, "the contender acquired much later than one lease period after the holder died")
+}
+
+// part 3: Unlock racing a renewal in flight, followed by a new tenure of the same Locker
+func zzC05UnlockRace() {
+	w := zzNewWorld(1, 1, 0)
+	w.acq = make([]int, 1)
+	l := w.lockers[0]
+	l.Lock()
+	w.acquired(0)
+	vYield() // the lease timer may fire here or at any later point
+	casBefore := w.st.casCalls
+	w.release(l)
+	after := w.st.casCalls
+	_ = casBefore
+	armedAtUnlock := zzTimersArmed
+	appliedAtUnlock := w.st.casApplied
+	delAtUnlock := w.st.deletes
+	if vChoose("relock", 2) == 1 {
+		l.Lock()
+		w.acquired(0)
+		newFut := l.future.Load().(*zzFuture)
+		vYield()
+		vSettle()
+		// a straggler of the first tenure neither cancelled nor replaced the new tenure's timer, nor renewed its record
+		cur := l.future.Load().(*zzFuture)
+		vAssert(cur == newFut || w.st.casApplied > appliedAtUnlock, "the new tenure's timer was replaced although no renewal of the new tenure happened")
+		vAssert(w.st.present, "the new tenure's record disappeared")
+		w.release(l)
+		vReach("second-tenure")
+		return
+	}
+	vSettle() // let a renewal that was already armed run
+	vReach("settled")
+	vAssert(w.st.casCalls-after <= 1, "more than one renewal attempt reached the storage after Unlock returned")
+	vAssert(w.st.casApplied == appliedAtUnlock, "a renewal changed the storage after Unlock returned")
+	vAssert(zzTimersArmed == armedAtUnlock, "a renewal armed a new timer after Unlock returned")
+	vAssert(!w.st.present && w.st.deletes == delAtUnlock, "storage changed after Unlock returned")
 }
